@@ -126,6 +126,26 @@ func %s() {
 `, same, name, same)
 		fam.Instances = append(fam.Instances, Instance{Func: name, Stratum: "Execute:remove-resend", Desc: fmt.Sprintf("removal, re-send of a survivor (same salience %v), sort model", same), Expect: []string{"executed"}})
 	}
+	// a rule without a salience clause has salience 0 wherever it stands in the text; a rule failing inside a for body fails
+	b.WriteString(`
+func H_DefaultSalience() {
+	sa, sb := vnd.Int64("sa"), vnd.Int64("sb")
+	b := vnd.Bool("b")
+	f := symFlags("f", 4)
+	dc := newDC(f)
+	rule := func(k int, sal string) string {
+		n := strconv.Itoa(k)
+		return "rule \"r" + n + "\" " + sal + "\nbegin\n ev(\"r" + n + ".s\")\n if f" + n + " {\n  for i = 0; i < 2; i += 1 {\n   if i == 1 {\n    z = one / zero\n   }\n  }\n }\n ev(\"r" + n + ".e\")\nend\n"
+	}
+	text := rule(0, "salience "+vnd.SalText(sa)) + rule(1, "") + rule(2, "salience "+vnd.SalText(sb)) + rule(3, "")
+	rb := buildText(dc, text)
+	eng := engine.NewGengine()
+	err := eng.Execute(rb, b)
+	vnd.Reach("executed")
+	checkSorted(vnd.Trace(), 4, allTrue(4), []int64{sa, 0, sb, 0}, f, b, err)
+}
+`)
+	fam.Instances = append(fam.Instances, Instance{Func: "H_DefaultSalience", Stratum: "Execute:default-salience", Desc: "rules without a salience clause between rules with symbolic saliences; faults inside a for body", Expect: []string{"executed"}})
 	// saliences written with leading zeros and signs are decimal numbers
 	b.WriteString(`
 func H_LeadingZeroSaliences() {
